@@ -353,9 +353,8 @@ def check(gir, include_dirs=(), strict_includes=True):
                 props = [p for p in owner.findall(GI + 'property') if p.get('name') == m.get(attr)]
                 if not props:
                     bad('accessor-names-missing-property', '%s %s=%s' % (path_of(m), _local(attr), m.get(attr)))
-                elif all(p.get(back) is not None and p.get(back) != m.get('name') for p in props):
-                    bad('accessor-property-disagree', '%s says %s=%s but the property says %s=%r'
-                        % (path_of(m), _local(attr), m.get(attr), back, [p.get(back) for p in props]))
+                # (the property may name another method: with several getter candidates the scanner marks each
+                # of them and elects one; the statement asks for agreement in the direction property -> method)
     # type-struct pairs
     for el in me.ns:
         ts = el.get(GLIB + 'type-struct')
